@@ -154,6 +154,33 @@ example : caloAccum (α := Nat)
     [{ SlotData.init with detector := some 0, edep := 1 }, SlotData.init,
      { SlotData.init with detector := some 0, edep := 2 }] [5] = [8] := by decide
 
+/-- NEGATIVE RESULT (defect of the code as written; the model reproduces the real tallies
+    bit-for-bit, tools/checks/c17.py key `two-calorimeters-share-detector-ids`): two SimpleCalo
+    callbacks on DIFFERENT volumes (2 and 3) registered in one StepCollector.  Each numbers its
+    detectors from 0, `StepParams` merges the two maps into ONE volume → detector table, so both
+    volumes map to detector id 0; every calorimeter then adds the deposits of BOTH volumes to its
+    detector 0.  A step with deposit 1 in volume 2 and deposit 2 in volume 3: each calorimeter
+    reports 3, while the deposits in its own declared volume are 1 resp. 2. -/
+theorem two_calorimeters_share_detector_ids :
+    let ifs := [caloIface [2], caloIface [3]]
+    let p : Params := ⟨{ edep := true, pre := { volume := true } },
+                        some [none, none, some 0, some 0, none], true⟩
+    let rd (v : Nat) : PointRead Nat := ⟨some v, false, 0, ⟨0, 0, 0⟩, ⟨0, 0, 0⟩, 0⟩
+    let ps (tid v e : Nat) : PostRead Nat :=
+      ⟨some tid, some 0, none, 1, some 2, 0, some 0, e, rd v, 2⟩
+    let st := gatherStep p [some (rd 2), some (rd 3)] [some (ps 0 2 1), some (ps 1 3 2)]
+                [SlotData.init, SlotData.init]
+    -- the constructor accepts the pair and builds the shared table
+    mergeParams 5 ifs = .ok p ∧
+    -- both steps are delivered, with the SAME detector id
+    st.map (·.detector) = [some 0, some 0] ∧
+    -- what the two calorimeters tally (fan-out as written) …
+    (fanOut p.sel st [.calo 1, .calo 1] [[0], [0]]).2 = [[3], [3]] ∧
+    -- … is not the deposit in the calorimeter's own volume
+    depositFold 0 (st.filter (fun s => s.pre.volume == some 2)) 0 = 1 ∧
+    depositFold 0 (st.filter (fun s => s.pre.volume == some 3)) 0 = 2 := by
+  decide +kernel
+
 /-! ### diagnostics -/
 
 /-- the action diagnostic's counter of (particle `pt`, action `a`) grows in one step by exactly
